@@ -9,5 +9,6 @@ CONSTANTS
   AmtScale = 1
   PowMax = 3
   MaxD = 8
+  Full = FALSE
 INVARIANTS LFixed LAmount LFrom
 CHECK_DEADLOCK FALSE
